@@ -144,7 +144,7 @@ def _one_case(ctx: Ctx, doc, eps, mode: str, reqs: list, todo: list, stream: str
     if st != "ok" and n != "Assert":
         ctx.spec_fail("operation-raised", inp, {"exception-class": n, "note": "the reader rejects with AssertionError only"}, size)
     reqs.append(f"{mode} load {et} {nc.enc_tree(doc, mode)}")
-    todo.append(("load", inp, impl_line, None, size))
+    todo.append(("load", inp, impl_line, nc.wl_scale(n), size))
     ctx.count("verdict:" + ("accept" if st == "ok" else "reject"))
     nontrivial = st == "ok" and len(n.modules) > 0
     ctx.case(stream, inp["tree"], nontrivial,
@@ -172,14 +172,18 @@ def _one_case(ctx: Ctx, doc, eps, mode: str, reqs: list, todo: list, stream: str
     st3, n3 = nc.load_impl(tree, eps)
     reqs.append(f"{mode} load {et} {nc.enc_tree(tree, mode)}")
     todo.append(("reload-tree", nc.make_input(tree, eps, mode, origin=inp["tree"]),
-                 nc.render_impl(n3, mode) if st3 == "ok" else "err:" + n3, None, size))
+                 nc.render_impl(n3, mode) if st3 == "ok" else "err:" + n3, nc.wl_scale(n3), size))
     # the property on the implementation
     f = spec_roundtrip(doc, eps, mode)
     if f is not None:
         clause, detail = f
-        small = nc.shrink(doc, lambda d: (spec_roundtrip(d, eps, mode) or ("", None))[0] == clause)
-        f2 = spec_roundtrip(small, eps, mode) or f
-        ctx.spec_fail(clause, nc.make_input(small, eps, mode), f2[1], nc.doc_size(small))
+        seen = sum(1 for x in ctx.spec_failures if x["clause"] == clause)
+        if seen < 3:    # shrink only the first few failures of a clause (the smallest one is reported)
+            small = nc.shrink(doc, lambda d: (spec_roundtrip(d, eps, mode) or ("", None))[0] == clause)
+            f2 = spec_roundtrip(small, eps, mode) or f
+            ctx.spec_fail(clause, nc.make_input(small, eps, mode), f2[1], nc.doc_size(small))
+        else:
+            ctx.spec_fail(clause, inp, detail, size)
 
 
 def compare(ctx: Ctx, todo, replies, mode_of) -> None:
@@ -187,7 +191,7 @@ def compare(ctx: Ctx, todo, replies, mode_of) -> None:
         mode = inp["mode"]
         if op in ("load", "reload-tree"):
             model = rep if not rep.startswith("err:Assert") else "err:Assert"
-            ok, exact, why = nc.cmp_lines(impl_line, model, mode, TOL)
+            ok, exact, why = nc.cmp_lines(impl_line, model, mode, TOL, tree if isinstance(tree, float) else 1.0)
             if not ok:
                 ctx.disagree(op, inp, impl_line[:2000], rep[:2000] + "  [" + why + "]", size)
             elif not exact:
@@ -233,6 +237,16 @@ def run(ctx: Ctx) -> None:
                 "members with repeated members and weights absent / 1 / 1.0 / true / int / float; numbers tagged int / float "
                 "/ bool; 'Q' stream dyadic (exact, explicit tolerance), 'F' stream decimal / thirds / doubles (tolerance "
                 "undefined or explicit); non-trivial = accepted and at least one module; distinct = distinct documents")
+    ctx.assumptions = [
+        "create_stog is a parameter of the model: the round-trip theorems assume StogPerm (it permutes a module's rectangles, "
+        "changing only roles) and StogStable (run on its own output it returns that output); both are exercised on every "
+        "sample (roles and order of the re-read rectangles are compared)",
+        "the YAML text layer (ruamel dump / safe load) is not modelled: load(dump(tree)) == tree is tested on every sample",
+        "exact-field arithmetic in the theorems; on the float stream centres / hard areas recomputed in a different order "
+        "are compared with 1e-9 relative tolerance",
+        "one process-wide tolerance (Rectangle epsilon) is in force for the write and the read (set or undefined identically "
+        "before each load)",
+    ]
     n = ctx.n(800, 20000)
     reqs, todo = [], []
     seeds = getattr(ctx, "seed_inputs", None) or []
